@@ -135,3 +135,71 @@ Proof.
   - reflexivity.
   - eexists. eexists. split; [reflexivity |]. simpl. auto.
 Qed.
+
+(* ---- the scheduler queue holds at most one pending wake-up per routine ------------------- *)
+Definition pend (q : list (Z * nat)) (r : nat) : nat := count_occ Nat.eq_dec (map snd q) r.
+
+Lemma pend_qinsert : forall t r q r',
+  pend (qinsert t r q) r' = (pend q r' + if Nat.eqb r r' then 1 else 0)%nat.
+Proof.
+  intros t r q r'. unfold pend. induction q as [| [t' x] rest IH]; simpl.
+  - destruct (Nat.eq_dec r r') as [E | E]; [subst; rewrite Nat.eqb_refl | apply Nat.eqb_neq in E; rewrite E]; reflexivity.
+  - destruct (t' <=? t)%Z; simpl.
+    + rewrite IH. destruct (Nat.eq_dec x r'); lia.
+    + destruct (Nat.eq_dec r r') as [E | E]; [subst; rewrite Nat.eqb_refl | apply Nat.eqb_neq in E; rewrite E];
+        destruct (Nat.eq_dec x r'); lia.
+Qed.
+
+Lemma pend_qremove : forall r q r',
+  pend (qremove r q) r' = if Nat.eqb r r' then 0%nat else pend q r'.
+Proof.
+  intros r q r'. unfold pend, qremove. induction q as [| [t' x] rest IH]; simpl.
+  - destruct (Nat.eqb r r'); reflexivity.
+  - destruct (Nat.eqb x r) eqn:X; simpl.
+    + apply Nat.eqb_eq in X. subst x. rewrite IH.
+      destruct (Nat.eq_dec r r') as [E | E]; [subst; rewrite Nat.eqb_refl; reflexivity |].
+      pose proof E as E'. apply Nat.eqb_neq in E'. rewrite E'. reflexivity.
+    + apply Nat.eqb_neq in X. rewrite IH.
+      destruct (Nat.eq_dec x r') as [E | E].
+      * subst x. assert (F : Nat.eqb r r' = false) by (apply Nat.eqb_neq; congruence). rewrite F. reflexivity.
+      * reflexivity.
+Qed.
+
+(* sched of r: afterwards r has exactly one pending wake-up, whatever it had before; the others keep theirs *)
+Lemma pend_enqueue : forall t r q r',
+  pend (enqueue t r q) r' = if Nat.eqb r r' then 1%nat else pend q r'.
+Proof.
+  intros t r q r'. unfold enqueue. rewrite pend_qinsert, pend_qremove.
+  destruct (Nat.eqb r r'); lia.
+Qed.
+
+Definition one_pending (q : list (Z * nat)) : Prop := forall r, (pend q r <= 1)%nat.
+
+Lemma one_pending_enqueue : forall t r q, one_pending q -> one_pending (enqueue t r q).
+Proof. intros t r q H r'. rewrite pend_enqueue. destruct (Nat.eqb r r'); [lia | apply H]. Qed.
+
+Lemma one_pending_enqueue_all : forall t rs q, one_pending q -> one_pending (enqueue_all t rs q).
+Proof. intros t rs. induction rs as [| r rest IH]; intros q H; simpl; [exact H | apply IH, one_pending_enqueue, H]. Qed.
+
+Lemma one_pending_pop : forall p q, one_pending (p :: q) -> one_pending q.
+Proof.
+  intros [t x] q H r. specialize (H r). unfold pend in *. simpl in H.
+  destruct (Nat.eq_dec x r); lia.
+Qed.
+
+Lemma enqueue_all_keeps : forall t rs q r, ~ In r rs -> pend (enqueue_all t rs q) r = pend q r.
+Proof.
+  intros t rs. induction rs as [| x rest IH]; intros q r N; simpl; [reflexivity |].
+  rewrite IH by (intro; apply N; right; assumption).
+  rewrite pend_enqueue. destruct (Nat.eqb x r) eqn:X; [| reflexivity].
+  apply Nat.eqb_eq in X. exfalso. apply N. left. exact X.
+Qed.
+
+(* every routine handed over by a signal ends up with exactly one pending wake-up *)
+Lemma enqueue_all_woken : forall t rs q r, In r rs -> pend (enqueue_all t rs q) r = 1%nat.
+Proof.
+  intros t rs. induction rs as [| x rest IH]; intros q r I; simpl in *; [contradiction |].
+  destruct (in_dec Nat.eq_dec r rest) as [J | J]; [apply IH; exact J |].
+  destruct I as [E | E]; [subst x | contradiction].
+  rewrite enqueue_all_keeps by exact J. rewrite pend_enqueue, Nat.eqb_refl. reflexivity.
+Qed.
